@@ -28,9 +28,15 @@ def generate(seed, tier):
     want = [n for n in ("tc", "tv", "tb", "kw", "ng", "n", "b") if r.random() < 0.5] + (["*_dyn"] if r.random() < 0.3 else []) + [n for n in ("tx", "txb") if r.random() < 0.3]
     mem = r.random() < 0.3
     empty_base = mem and r.random() < 0.5
+    # 15% of the runs write through the multi-process writer (merged mode): the parent re-blocks the
+    # sub-writers' posting runs and recomputes every term's statistics from their per-document data.
+    # (MpWriter.cancel() never reaches its sub-processes - DESIGN 10.3, not pursued - so these runs only commit.)
+    pr = random.Random("%s/mp" % seed)
+    mp = {"procs": pr.randint(2, 3), "batchsize": pr.randint(1, 5)} if pr.random() < 0.15 else None
     rec = _hist.generate_hist(
         ID, seed,
-        gen_kwargs={"ntx": (0, 0) if empty_base else (1, 5), "maxops": 8, "p_iofault": 0.0, "p_raise": 0.02, "p_cancel": 0.03,
+        gen_kwargs={"ntx": (0, 0) if empty_base else (1, 5), "maxops": 8, "p_iofault": 0.0,
+                    "p_raise": 0.0 if mp else 0.02, "p_cancel": 0.0 if mp else 0.03,
                     "p_restart": 0.3, "p_delete": r.choice((0.0, 0.0, 0.2)),
                     "merges": ("none", "none", "default", "optimize", "custom")},
         cfg_kwargs={"want": want})
@@ -43,6 +49,8 @@ def generate(seed, tier):
         dg = DocGen(cfg_from_record(rec["config"]), mr, nkeys=12)
         dg.next_uid = 200000
         rec["mem_docs"] = [dg.doc(sparse_p=0.2) for _ in range(mr.randint(2, 12))]
+    if mp:
+        rec["mp"] = mp
     return rec
 
 
@@ -173,7 +181,13 @@ def make_hooks(s, record):
             actor.ensure_index()
             after_commit(actor)
 
-    return {"after_commit": after_commit, "finish": finish}
+    hooks = {"after_commit": after_commit, "finish": finish}
+    if record.get("mp"):
+        def factory(ix, kw):
+            from whoosh.multiproc import MpWriter
+            return MpWriter(ix, procs=record["mp"]["procs"], batchsize=record["mp"]["batchsize"], **s.cfg.writer_kwargs())
+        hooks["writer_factory"] = factory
+    return hooks
 
 
 def execute(record, trace=False):
